@@ -190,6 +190,19 @@ def getStream (sh : Shared) : Shared × Option Ret := seqOp sh .get
 def clear (sh : Shared) (id : Nat) : Shared × Option Ret := seqOp sh (.clear id)
 def available (sh : Shared) : Int := (64 * sh.words.length : Nat) - sh.inuse - 1
 
+/-- `Clear(stream)` for a NEGATIVE argument `stream = -k` (`k ≥ 1`), sequentially, as the unchanged code behaves (the
+    argument is an `int` and is not checked; proposed finding KF-C08-3): `bucketOffset(-k) = -(k/64)` (Go's division
+    truncates toward zero) — for `k ≥ 64` an index panic; for `1 ≤ k ≤ 63` word 0 is loaded,
+    `streamOffset(-k) = 64 - uint64(-k % 64) - 1 = 63 + k ≥ 64` (uint64 arithmetic), so the mask `uint64(1) << (63+k)`
+    is 0, the "already cleared" guard `bucket&mask != mask` is false, the CAS writes the word back unchanged and the
+    in-use counter is decremented: `true` (or the 'negative streams inuse' panic) with no bit changed. Hand-modelled,
+    tied by the sequential differential run (`n<k>` tokens); ids of every other definition and theorem are `Nat`. -/
+def clearNeg (sh : Shared) (k : Nat) : Shared × Option Ret :=
+  if 64 ≤ k then (sh, some .crashIndex)
+  else
+    let v := sh.inuse - 1
+    ({ sh with inuse := v }, some (if v < 0 then .crashNegative else .cleared true))
+
 /-! ### the concurrent machine: k threads, one action = one atomic operation of one thread -/
 
 structure State where
